@@ -1283,3 +1283,93 @@ example : FullyResolved axesEx [5/2, 79/10] (13/10) := by
     · intro hp; simp [axesEx] at hp
 
 end DV.C01
+
+/-! ### several droplets: the components of the rendered emulsion are the droplets -/
+
+namespace DV.C01
+open DV.Merge DV.MergeInv DV.Label DV.LabelInv DV.GridGeom DV.Render DV.BallConn DV.C02 Relation
+
+variable (axes : List Axis)
+
+/-- the sharp image of an emulsion: the union of the droplets' images -/
+def emulsionMask (balls : List (List ℚ × ℚ)) (c : ℕ) : Bool :=
+  balls.any fun b => ballMask axes b.1 b.2 c
+
+/-- the rendered droplets are separated on the grid: no cell belongs to two droplets and no cell of one
+droplet is a face neighbour (under the grid's topology) of a cell of another one -/
+def Separated (balls : List (List ℚ × ℚ)) : Prop :=
+  ∀ b1 ∈ balls, ∀ b2 ∈ balls, b1 ≠ b2 → ∀ c c', ballMask axes b1.1 b1.2 c = true → ballMask axes b2.1 b2.2 c' = true →
+    c ≠ c' ∧ ¬ FaceAdj (shapeOf axes) (perOf axes) c c' ∧ ¬ FaceAdj (shapeOf axes) (perOf axes) c' c
+
+theorem emulsionMask_iff (balls : List (List ℚ × ℚ)) (c : ℕ) :
+    emulsionMask axes balls c = true ↔ ∃ b ∈ balls, ballMask axes b.1 b.2 c = true := by
+  unfold emulsionMask; simp
+
+theorem gridConn_mono {shape : List ℕ} {per : List Bool} {m1 m2 : ℕ → Bool} (hm : ∀ c, m1 c = true → m2 c = true)
+    {a b : ℕ} (h : GridConn shape per m1 a b) : GridConn shape per m2 a b := by
+  induction h with
+  | rel x y hl => exact EqvGen.rel _ _ ⟨hm x hl.1, hm y hl.2.1, hl.2.2⟩
+  | refl x => exact EqvGen.refl _
+  | symm x y _ ih => exact EqvGen.symm _ _ ih
+  | trans x y z _ _ ih1 ih2 => exact EqvGen.trans _ _ _ ih1 ih2
+
+/-- **Several droplets: the components of the rendered emulsion are exactly the droplets.**  If the
+rendered droplets are separated on the grid, two covered cells are connected under the grid's topology
+inside the image iff they belong to the same droplet — hence (by `locateMask_topology`) the pipeline forms
+exactly one cluster per droplet, each with the cells that droplet covers. -/
+theorem emulsion_components (balls : List (List ℚ × ℚ)) (hwf : ∀ b ∈ balls, GridWF axes b.1)
+    (hsep : Separated axes balls) {c1 c2 : ℕ}
+    (m1 : emulsionMask axes balls c1 = true) (m2 : emulsionMask axes balls c2 = true) :
+    GridConn (shapeOf axes) (perOf axes) (emulsionMask axes balls) c1 c2 ↔
+      ∃ b ∈ balls, ballMask axes b.1 b.2 c1 = true ∧ ballMask axes b.1 b.2 c2 = true := by
+  constructor
+  · intro hconn
+    -- same membership in every droplet along the whole path
+    have key : ∀ b ∈ balls, (ballMask axes b.1 b.2 c1 = true ↔ ballMask axes b.1 b.2 c2 = true) := by
+      clear m1 m2
+      induction hconn with
+      | rel x y hl =>
+        obtain ⟨mx, my, hor⟩ := hl
+        rcases hor with rfl | hadj
+        · intro _ _; exact Iff.rfl
+        · obtain ⟨bx, hbx, hx⟩ := (emulsionMask_iff axes balls x).mp mx
+          obtain ⟨bY, hbY, hy⟩ := (emulsionMask_iff axes balls y).mp my
+          have hsame : bx = bY := by
+            by_contra hne
+            exact (hsep bx hbx bY hbY hne x y hx hy).2.1 hadj
+          subst hsame
+          intro b hb
+          by_cases hbe : b = bx
+          · subst hbe; exact ⟨fun _ => hy, fun _ => hx⟩
+          · constructor
+            · intro hbx'
+              exact absurd rfl (hsep b hb bx hbx hbe x x hbx' hx).1
+            · intro hby'
+              exact absurd rfl (hsep b hb bx hbx hbe y y hby' hy).1
+      | refl x => intro _ _; exact Iff.rfl
+      | symm x y _ ih => intro b hb; exact (ih b hb).symm
+      | trans x y z _ _ ih1 ih2 => intro b hb; exact (ih1 b hb).trans (ih2 b hb)
+    obtain ⟨b, hb, h1⟩ := (emulsionMask_iff axes balls c1).mp m1
+    exact ⟨b, hb, h1, (key b hb).mp h1⟩
+  · rintro ⟨b, hb, h1, h2⟩
+    exact gridConn_mono (fun c hc => (emulsionMask_iff axes balls c).mpr ⟨b, hb, hc⟩)
+      (ball_connected axes b.1 (hwf b hb) b.2 h1 h2)
+
+/-- in the pipeline: one cluster per droplet -/
+theorem emulsion_one_cluster_each (balls : List (List ℚ × ℚ)) (hwf : ∀ b ∈ balls, GridWF axes b.1)
+    (hsep : Separated axes balls) (hpos : ∀ n ∈ shapeOf axes, 0 < n)
+    (coord : ℕ → ℕ → ℕ) (cells : List ℕ) (shp : ℕ → ℕ) :
+    let mask := emulsionMask axes balls
+    let L := labelFn (shapeOf axes) mask
+    let st := mergeLoop shp L (initSt coord L cells) (edgesOf (shapeOf axes) (perOf axes))
+    ∀ c1 c2, mask c1 = true → mask c2 = true →
+      (st.lab c1 = st.lab c2 ↔ ∃ b ∈ balls, ballMask axes b.1 b.2 c1 = true ∧ ballMask axes b.1 b.2 c2 = true) := by
+  intro mask L st c1 c2 m1 m2
+  have hmask : ∀ c, mask c = true → c < numCells (shapeOf axes) := by
+    intro c hc
+    obtain ⟨b, _, hb⟩ := (emulsionMask_iff axes balls c).mp hc
+    exact ((ballMask_iff axes b.1 b.2 c).mp hb).1
+  rw [locateMask_topology (shapeOf axes) (perOf axes) mask hpos hmask coord cells shp c1 c2 m1 m2]
+  exact emulsion_components axes balls hwf hsep m1 m2
+
+end DV.C01
